@@ -274,4 +274,42 @@ theorem inner_join_comm {A B : Type} (on : A → B → Bool) (l : List A) (r : L
   rw [List.filter_map] at h
   exact h
 
+/-- The matched part of a LEFT join is the inner join, in the same order... -/
+theorem left_join_matched_part {A B : Type} (on : A → B → Bool) (l : List A) (r : List B) :
+    (leftJoin on l r).filterMap (fun p => p.2.map fun b => (p.1, b)) = innerJoin on l r := by
+  unfold leftJoin innerJoin
+  induction l with
+  | nil => simp
+  | cons a as ih =>
+    simp only [List.flatMap_cons, List.filterMap_append, ih]
+    congr 1
+    cases h : (r.filter (on a)) with
+    | nil => simp
+    | cons b bs => simp [List.filterMap_map, Function.comp_def]
+
+/-- ... and its NULL-extended rows are exactly the rows of the anti join (the outer rows without a
+match), each once. -/
+theorem left_join_unmatched_part {A B : Type} (on : A → B → Bool) (l : List A) (r : List B) :
+    (leftJoin on l r).filterMap (fun p => if p.2.isNone then some p.1 else none) = antiJoin on l r := by
+  unfold leftJoin antiJoin
+  induction l with
+  | nil => simp
+  | cons a as ih =>
+    simp only [List.flatMap_cons, List.filterMap_append, ih, List.filter_cons]
+    cases h : (r.filter (on a)) with
+    | nil =>
+      have hany : r.any (on a) = false := by
+        rw [List.any_eq_false]
+        intro b hb hon
+        have : b ∈ r.filter (on a) := List.mem_filter.mpr ⟨hb, hon⟩
+        rw [h] at this
+        cases this
+      simp [hany]
+    | cons b bs =>
+      have hany : r.any (on a) = true := by
+        rw [List.any_eq_true]
+        have : b ∈ r.filter (on a) := by rw [h]; exact List.mem_cons_self ..
+        exact ⟨b, (List.mem_filter.mp this).1, (List.mem_filter.mp this).2⟩
+      simp [hany, List.filterMap_map, Function.comp_def]
+
 end GlareModel.Props.C02
